@@ -159,6 +159,17 @@ def check_dispatch(kind: int) -> bool:
     return True
 
 
+def check_twin_layout_reachable(width: int) -> bool:
+    """
+    pre: 1 <= width <= 100000
+    post: _ == True
+    """
+    del SHM_EVENTS[:]
+    owner = CM.CountMinLog8(width, 3, 300, 0, True)
+    v = _views(SHM_EVENTS)
+    owner.shm = None
+    return v[1][0] != 3 * width      # false claim: the bookkeeping view does NOT start right after the table -- must be refuted
+
 # ---------------------------------------------------------------------------------------------- real-library replays
 def _real_behaviour(make, kind, ops):
     """owner + attached view + in-memory reference under the same operations: all must agree; dropping the view keeps
